@@ -127,6 +127,79 @@ Example C08_no_permission_no_publisher_refuted :
    end) = false.
 Proof. exact no_permission_no_publisher_refuted. Qed.
 
+(* ---- the other kinds that the publish permissions decide (IsAllowedToSend) ---- *)
+
+(* The decision for a message that carries no session description (candidate, answer, endOfCandidates for the
+   sender's own stream; sendoffer): the screen stream needs publish-screen, audio / video any of publish-media,
+   publish-audio, publish-video. *)
+Theorem C08_send_allowed_iff : forall p stream,
+  send_allowed p stream = true <->
+  (stream = 2 /\ has_perm p P_SCREEN = true) \/
+  (stream <> 2 /\ (has_perm p P_MEDIA = true \/ has_perm p P_AUDIO = true \/ has_perm p P_VIDEO = true)).
+Proof.
+  intros p stream. unfold send_allowed. destruct (N.eqb_spec stream 2) as [->|Hne].
+  - split; [intros H; left; split; [reflexivity|exact H]|intros [[_ H]|[Hn _]]; [exact H|now elim Hn]].
+  - rewrite !orb_true_iff. split.
+    + intros [[H|H]|H]; right; (split; [exact Hne|]); auto.
+    + intros [[He _]|[_ [H|[H|H]]]]; [now elim Hne| | |]; auto.
+Qed.
+
+(* A candidate (kind 2), an answer (4), an endOfCandidates (7) for the sender's OWN stream without that
+   permission is refused and nothing changes. *)
+Theorem C08_own_stream_needs_permission : forall h c sid s mk stream media,
+  is_cand mk = true -> send_allowed s.(s_perms) stream = false ->
+  do_media h c sid s (RSession (IdPub sid)) mk stream media = (h, [ToConn c (SError E_not_allowed)]).
+Proof.
+  intros h c sid s mk stream media Hc Hs. unfold do_media.
+  destruct (N.eqb_spec mk 0) as [->|_]; [vm_compute in Hc; discriminate|].
+  destruct (N.eqb_spec mk 1) as [->|_]; [vm_compute in Hc; discriminate|].
+  rewrite Hc, N.eqb_refl, Hs. reflexivity.
+Qed.
+Theorem C08_is_cand_kinds : forall mk, is_cand mk = true <-> mk = 2 \/ mk = 4 \/ mk = 7.
+Proof.
+  intros mk. unfold is_cand. rewrite !orb_true_iff, !N.eqb_eq. tauto.
+Qed.
+
+(* A sendoffer (kind 3: "make that session subscribe to my stream") to another session of the sender's backend,
+   or to an id that is no session, without the permission for the stream type is refused; nothing is created and
+   nothing changes. *)
+Theorem C08_sendoffer_needs_permission : forall h c sid s n t stream media,
+  get_sess h n = Some t -> t.(s_backend) = s.(s_backend) -> n <> sid ->
+  send_allowed s.(s_perms) stream = false ->
+  do_media h c sid s (RSession (IdPub n)) 3 stream media = (h, [ToConn c (SError E_not_allowed)]).
+Proof.
+  intros h c sid s n t stream media Ht Hb Hn Hs. unfold do_media.
+  change (N.eqb 3 0) with false. change (N.eqb 3 1) with false. change (is_cand 3) with false. change (N.eqb 3 3) with true.
+  cbv iota. unfold do_sendoffer. rewrite Ht, Hb, N.eqb_refl. cbn [negb].
+  destruct (N.eqb_spec n sid) as [E|_]; [contradiction|]. rewrite Hs. reflexivity.
+Qed.
+Theorem C08_sendoffer_needs_permission_nobody : forall h c sid s i stream media,
+  match i with IdPub n => get_sess h n | _ => None end = None ->
+  send_allowed s.(s_perms) stream = false ->
+  do_media h c sid s (RSession i) 3 stream media = (h, [ToConn c (SError E_not_allowed)]).
+Proof.
+  intros h c sid s i stream media Hi Hs. unfold do_media.
+  change (N.eqb 3 0) with false. change (N.eqb 3 1) with false. change (is_cand 3) with false. change (N.eqb 3 3) with true.
+  cbv iota. unfold do_sendoffer. destruct i as [n|n|k|n]; try (rewrite Hs; reflexivity).
+  rewrite Hi, Hs. reflexivity.
+Qed.
+(* Without the permission a sendoffer tells the media server nothing, whoever it names: no subscriber is created
+   for anybody. *)
+Theorem C08_sendoffer_refused_creates_nothing : forall h c sid s i stream media e,
+  send_allowed s.(s_perms) stream = false ->
+  ~ In (ToMcu e) (snd (do_media h c sid s (RSession i) 3 stream media)).
+Proof.
+  intros h c sid s i stream media e Hs. unfold do_media.
+  change (N.eqb 3 0) with false. change (N.eqb 3 1) with false. change (is_cand 3) with false. change (N.eqb 3 3) with true.
+  cbv iota. unfold do_sendoffer. rewrite Hs. cbn [negb].
+  assert (Herr : ~ In (ToMcu e) (snd (h, [ToConn c (SError E_not_allowed)]))).
+  { cbn [snd In]. intros [H|[]]. discriminate. }
+  destruct i as [n|n|k|n]; try exact Herr.
+  destruct (get_sess h n) as [t|]; [|exact Herr].
+  destruct (negb (N.eqb (s_backend t) (s_backend s))); [intros []|].
+  destruct (N.eqb n sid); [intros []|exact Herr].
+Qed.
+
 Print Assumptions C08_offer_allowed_iff.
 Print Assumptions C08_control_gate.
 Print Assumptions C08_transient_gate.
@@ -140,3 +213,9 @@ Print Assumptions C08_revocation_establishes.
 Print Assumptions C08_request_needs_same_call.
 Print Assumptions C08_offer_needs_permission.
 Print Assumptions C08_request_needs_same_call_any.
+Print Assumptions C08_send_allowed_iff.
+Print Assumptions C08_own_stream_needs_permission.
+Print Assumptions C08_is_cand_kinds.
+Print Assumptions C08_sendoffer_needs_permission.
+Print Assumptions C08_sendoffer_needs_permission_nobody.
+Print Assumptions C08_sendoffer_refused_creates_nothing.
